@@ -98,26 +98,15 @@ Theorem hit_implies_same_question_chase :
 Proof. exact wire_chase_sound. Qed.
 Print Assumptions hit_implies_same_question_chase.
 
-(* the decoded-path chase (additionalAnswer) when its sub-queries are answered from the store.
-   Full statement (what the property asks): every hop was admitted for (printed target of the
-   previous alias, the client's type, the client's CLASS, the client's CD), shared audience:
-     msg_linked_full qtype qclass cd e (msg_chase ... qtype qclass cd e).
-   The code builds the sub-query with dns.Msg.SetQuestion, which forces class IN, so only the
-   partial statement holds (type and CD kept, class IN) and the full one is refuted for a class-CH
-   client (finding msg-chase-subquery-class-in, props/C03/fix.patch). *)
-Theorem hit_implies_same_question_msg_chase_partial :
-  forall (K : Type) (K_eqb : K -> K -> bool) (H : bytes -> K) (s : store K) fuel qtype cd e,
-    msg_linked qtype cd e (msg_chase K K_eqb H s fuel qtype cd e).
+(* the decoded-path chase (additionalAnswer) when its sub-queries are answered from the store: every
+   hop was admitted for (printed target of the previous alias, the client's type, class and CD),
+   shared audience.  (Before fix f46047f the sub-query was always class IN and only a partial
+   statement held.) *)
+Theorem hit_implies_same_question_msg_chase :
+  forall (K : Type) (K_eqb : K -> K -> bool) (H : bytes -> K) (s : store K) fuel qtype qclass cd e,
+    msg_linked qtype qclass cd e (msg_chase K K_eqb H s fuel qtype qclass cd e).
 Proof. exact msg_chase_sound. Qed.
-Print Assumptions hit_implies_same_question_msg_chase_partial.
-
-Theorem msg_chase_keeps_class_refuted :
-  exists (s : store bytes) q cd e nxt,
-    serve_msg_exact bytes bytes_eqb (fun p => p) s q cd None = Some e /\
-    msg_chase bytes bytes_eqb (fun p => p) s 10 (q_type q) cd e = [nxt] /\
-    q_class q = 3 /\ q_class (e_q nxt) = 1.
-Proof. exact msg_chase_class_witness. Qed.
-Print Assumptions msg_chase_keeps_class_refuted.
+Print Assumptions hit_implies_same_question_msg_chase.
 
 (* failure lookups: exact question + CD + normalised scope, or an ancestor-or-self zone of the same class *)
 Theorem hit_implies_same_question_failure :
